@@ -27,6 +27,18 @@ def run(ctx):
         for m in s["mismatches"]:
             ctx.report({"kind": m["kind"], "model": m["model"], "output": m["output"]},
                        "%s draw %d: %s" % (m["model"], m["draw"], m["detail"]), m)
+    if ok and not ctx.quick:
+        # the thorough bound enumerates histories over zeroed output arrays only (with used arrays it has 1.6 million
+        # states and as many records); the histories WITH used output arrays are those of the quick bound, replayed again
+        cases_u = modelruns.histories(ctx, "ModelRuns_hist.cfg")
+        su, crash_u = modelruns.replay(ctx, "hist", cases_u, ["-draws", "3", "-sample", "4000"])
+        if crash_u:
+            cu = crash_u.get("case") or {}
+            ctx.report({"kind": "crash", "model": cu.get("model")}, "model %s crashed: %s" % (cu.get("model"), crash_u["stderr"][-800:]), crash_u)
+        else:
+            modelruns.account(ctx, su)
+            for m in su["mismatches"]:
+                ctx.report({"kind": m["kind"], "model": m["model"], "output": m["output"]}, "%s draw %d: %s" % (m["model"], m["draw"], m["detail"]), m)
     # Pristine references: for every model and every parameter content a SEPARATE process that only ever sees
     # that one content (no other model runs in it). Nothing may survive in package-level state or depend on
     # what ran before, so the values observed in the big process must agree with them bit for bit.
